@@ -58,16 +58,48 @@ def chain_rules(rep, prog):
     run_function(S, f)
     loops = [(k, v) for k, v in S.loopinfo.items() if v["func"] == q]
     ok, why = False, "filter loop not found"
+    MECt = call("chain_graph_MEC", p=("ext", "len", (PA_,), ()))
+
+    def col_sel(t, base):
+        """t = base[:, C] with C the targets in any order-insensitive spelling (list / sorted / array of I)"""
+        if not (t[0] == "sub" and t[1] == base and t[2][0] == "tuple" and len(t[2][1]) == 2 and t[2][1][0] == FULL):
+            return None
+        c_ = t[2][1][1]
+        while c_[0] == "ext" and c_[1] in ("list", "sorted", "numpy.array", "numpy.asarray", "tuple") and len(c_[2]) == 1:
+            c_ = c_[2][0]
+        return c_ if c_ == PI else None
+
+    def keeps(cond, me):
+        """cond <=> the member's columns at the targets equal A's"""
+        eq = None
+        if cond[0] == "method" and cond[2] == "all" and not cond[3] and cond[1][0] == "cmp" and cond[1][1] == "==":
+            eq = (cond[1][2], cond[1][3])
+        elif cond[0] == "ext" and cond[1] in ("numpy.array_equal", "numpy.all") and cond[2]:
+            if cond[1] == "numpy.array_equal" and len(cond[2]) == 2:
+                eq = (cond[2][0], cond[2][1])
+            elif cond[2][0][0] == "cmp" and cond[2][0][1] == "==":
+                eq = (cond[2][0][2], cond[2][0][3])
+        if eq is None:
+            return False
+        a, b = eq
+        return (col_sel(a, me) is not None and col_sel(b, PA_) is not None) or (col_sel(b, me) is not None and col_sel(a, PA_) is not None)
     if len(loops) == 1:
         lid, li = loops[0]
         me = ("elem", li["iter"])
-        cols = ("ext", "list", (PI,), ())
-        want = ("method", ("cmp", "==", ("sub", me, ("tuple", (FULL, cols))), ("sub", PA_, ("tuple", (FULL, cols)))), "all", (), ())
-        want2 = ("method", ("cmp", "==", ("sub", PA_, ("tuple", (FULL, cols))), ("sub", me, ("tuple", (FULL, cols)))), "all", (), ())
         apps = [c for c in S.select("call", qname=q) if c.callkind == "method" and c.target == ".append"]
-        ok = li["iter"] == call("chain_graph_MEC", p=("ext", "len", (PA_,), ())) and len(apps) == 1 and apps[0].args == [me] and \
-            len(apps[0].path) >= 1 and apps[0].path[-1] in ((want, True), (want2, True))
+        ok = li["iter"] == MECt and len(apps) == 1 and apps[0].args == [me] and \
+            len(apps[0].path) >= 1 and apps[0].path[-1][1] is True and keeps(apps[0].path[-1][0], me)
         why = "kept under %s" % (fmt(apps[0].path[-1][0])[:100] if apps and apps[0].path else None)
+    elif not loops:
+        # np.array([me for me in MEC if <columns equal>])
+        for r in S.select("return", qname=q):
+            comps = [x for x in walk(r.value) if isinstance(x, tuple) and x and x[0] == "comp" and len(x[3]) == 1]
+            for comp in comps:
+                me = ("elem", comp[3][0][1])
+                conds = comp[3][0][2]
+                if comp[3][0][1] == MECt and comp[2] == me and len(conds) == 1 and keeps(conds[0], me):
+                    ok = True
+                why = "comprehension over %s" % fmt(comp[3][0][1])[:60]
     rep.check("COLUMNS.chain-filter", ok, fwhere(f), "a chain-MEC member is kept iff its columns I (the targets' parents) equal A's columns I",
               "chain filter is not `(me[:, I] == A[:, I]).all()`: " + why)
 
@@ -165,7 +197,7 @@ def meek_rules(rep, prog):
     rep.check("ORIENT.meek", ok, fwhere(f), "each branch guarded by rule_1..4(a, b, P) clears P[b, a] (orient a -> b) in the matrix the rules looked at",
               "Meek branch and store disagree: " + "; ".join(details))
     loops = [(k, v) for k, v in S.loopinfo.items() if v["func"] == q and v["test"] is not None]
-    okf = len(loops) == 1 and any(v == ("method", PP_, "copy", (), ()) for v in loops[0][1]["init"].values()) and T(summ.ret)[0] == "after"
+    okf = len(loops) == 1 and any(v in (("method", PP_, "copy", (), ()), ("ext", "numpy.array", (PP_,), ()), ("ext", "numpy.copy", (PP_,), ()), ("ext", "copy.deepcopy", (PP_,), ())) for v in loops[0][1]["init"].values()) and T(summ.ret)[0] == "after"
     rep.check("ORIENT.fixpoint", okf, fwhere(f), "works on P.copy() and repeats until a pass orients nothing", "not a fixpoint loop over a copy of P")
     inner = [(k, v) for k, v in S.loopinfo.items() if v["func"] == q and v["test"] is None]
     oki = len(inner) == 1 and inner[0][1]["iter"][0] == "call" and inner[0][1]["iter"][1] == U + "undirected_edges"
